@@ -461,6 +461,9 @@ func (ev *gEnv) callResult(call *ssa.Call, idx int) cT {
 		if isErrorType(rt) {
 			return ev.intSym("err:"+name, types.Typ[types.Uint8])
 		}
+		if isBoolType(rt) {
+			return ev.boolSym(resName)
+		}
 		return an.opaque(resName)
 	}
 	// summarise the callee's exits at these arguments
@@ -486,6 +489,8 @@ func (ev *gEnv) callResult(call *ssa.Call, idx int) cT {
 		}
 	case isIntegerType(rt):
 		res = ev.intSym(resName, rt)
+	case isBoolType(rt):
+		res = ev.boolSym(resName)
 	default:
 		res = an.opaque(resName)
 	}
@@ -523,6 +528,12 @@ func (ev *gEnv) callResult(call *ssa.Call, idx int) cT {
 					t := sub.term(rv)
 					if t.kind == 'i' {
 						s := ev.intSym(fmt.Sprintf("%s.%d", name, k), kt)
+						rule.Then = append(rule.Then, gAtom{kind: 'g', l: s.l.sub(t.l)}, gAtom{kind: 'g', l: t.l.sub(s.l)})
+					}
+				case isBoolType(kt):
+					t := sub.term(rv)
+					if t.kind == 'i' {
+						s := ev.boolSym(fmt.Sprintf("%s.%d", name, k))
 						rule.Then = append(rule.Then, gAtom{kind: 'g', l: s.l.sub(t.l)}, gAtom{kind: 'g', l: t.l.sub(s.l)})
 					}
 				}
@@ -610,6 +621,15 @@ func (ev *gEnv) atoms(cd Cond) []gAtom {
 	an := ev.an
 	rels := relsOf(cd)
 	if len(rels) == 0 {
+		// a bare boolean value (the ok result of a helper): 0/1 symbol
+		if isBoolType(cd.V.Type()) {
+			if t := ev.term(cd.V); t.kind == 'i' {
+				if cd.Truth {
+					return []gAtom{{kind: 'g', l: t.l.addK(-1)}}
+				}
+				return []gAtom{{kind: 'g', l: t.l.neg()}}
+			}
+		}
 		return []gAtom{{kind: 'o', s: fmt.Sprintf("%v(%s)", cd.Truth, ev.local(cd.V))}}
 	}
 	var out []gAtom
@@ -918,48 +938,102 @@ func runR13_3(c *Ctx, r *R) {
 	// K -> decoder, from ParseValue's switch (AST): the function called in the clause, followed into internal/decode
 	decoders := map[int64]*ssa.Function{}
 	var pre *ssa.Function
-	pvInfo := typeSwitches(c, pv)
-	for _, call := range callsIn(pv, false) {
-		callee := call.Common().StaticCallee()
-		if callee == nil || callee.Pkg == nil || len(call.Common().Args) == 0 || call.Common().Args[0] != ssa.Value(pv.Params[0]) {
-			continue
-		}
-		d := callee
-		for hops := 0; hops < 4 && d != nil && relPkg(d.Pkg.Pkg.Path()) != "internal/decode"; hops++ {
-			var next *ssa.Function
-			for _, c2 := range callsIn(d, false) {
-				g := c2.Common().StaticCallee()
-				if g == nil || g.Pkg == nil || len(c2.Common().Args) == 0 || len(d.Params) == 0 || c2.Common().Args[0] != ssa.Value(d.Params[0]) {
-					continue
-				}
-				if rp := relPkg(g.Pkg.Pkg.Path()); rp == "internal/decode" || rp == "internal/types" {
-					next = g
-					break
+	// The dispatch may be spread over ParseValue and unexported helpers of its package that receive the buffer and
+	// the decoded type and switch again: a call applies to the type codes of every enclosing clause, across helpers.
+	allLabels := map[int64]bool{}
+	var collect func(fn *ssa.Function, buf *ssa.Parameter, applies func(k int64) bool, depth int)
+	collect = func(fn *ssa.Function, buf *ssa.Parameter, applies func(k int64) bool, depth int) {
+		info := typeSwitches(c, fn)
+		for _, cl := range info.clauses {
+			for _, k := range cl.labels {
+				if applies(k) {
+					allLabels[k] = true
 				}
 			}
-			d = next
 		}
-		if d == nil || relPkg(d.Pkg.Pkg.Path()) != "internal/decode" {
-			continue
-		}
-		inClause := false
-		for _, cl := range pvInfo.clauses {
-			if call.Pos() >= cl.pos && call.Pos() < cl.end {
-				inClause = true
-				for _, k := range cl.labels {
+		for _, call := range callsIn(fn, false) {
+			callee := call.Common().StaticCallee()
+			if callee == nil || callee.Pkg == nil || callee.Blocks == nil {
+				continue
+			}
+			ai := -1
+			for i, a := range call.Common().Args {
+				if a == ssa.Value(buf) {
+					ai = i
+				}
+			}
+			if ai < 0 || ai >= len(callee.Params) {
+				continue
+			}
+			pos := call.Pos()
+			here := func(k int64) bool { return applies(k) && info.applies(pos, k) }
+			// a helper of the same package that is handed the type code too and switches over it
+			if callee.Pkg == fn.Pkg && !ast.IsExported(callee.Name()) && depth < 3 && len(typeSwitches(c, callee).clauses) > 0 {
+				typed := false
+				for _, a := range call.Common().Args {
+					if typeIs(a.Type(), pkgPath("internal/format"), "Type") {
+						typed = true
+					}
+				}
+				if typed {
+					collect(callee, callee.Params[ai], here, depth+1)
+					continue
+				}
+			}
+			d := callee
+			dp := ai
+			for hops := 0; hops < 4 && d != nil && relPkg(d.Pkg.Pkg.Path()) != "internal/decode"; hops++ {
+				var next *ssa.Function
+				np := -1
+				for _, c2 := range callsIn(d, false) {
+					g := c2.Common().StaticCallee()
+					if g == nil || g.Pkg == nil || dp >= len(d.Params) {
+						continue
+					}
+					gi := -1
+					for i, a := range c2.Common().Args {
+						if a == ssa.Value(d.Params[dp]) {
+							gi = i
+						}
+					}
+					if gi < 0 {
+						continue
+					}
+					if rp := relPkg(g.Pkg.Pkg.Path()); rp == "internal/decode" || rp == "internal/types" {
+						next, np = g, gi
+						break
+					}
+				}
+				d, dp = next, np
+			}
+			if d == nil || relPkg(d.Pkg.Pkg.Path()) != "internal/decode" {
+				continue
+			}
+			inClause := false
+			for _, cl := range info.clauses {
+				if pos >= cl.pos && pos < cl.end {
+					inClause = true
+				}
+			}
+			if !inClause {
+				if pre == nil && depth == 0 {
+					pre = d // decoder applied to b before the switch (DecodeType): delimits the types whose clause calls nothing
+				}
+				continue
+			}
+			for _, k := range pinnedTypes {
+				if here(k) && decoders[k] == nil {
 					decoders[k] = d
 				}
 			}
 		}
-		if !inClause && pre == nil {
-			pre = d // decoder applied to b before the switch (DecodeType): delimits the types whose clause calls nothing
-		}
 	}
-	for _, cl := range pvInfo.clauses {
-		for _, k := range cl.labels {
-			if decoders[k] == nil && pre != nil {
-				decoders[k] = pre
-			}
+	if len(pv.Params) > 0 {
+		collect(pv, pv.Params[0], func(int64) bool { return true }, 0)
+	}
+	for k := range allLabels {
+		if decoders[k] == nil && pre != nil {
+			decoders[k] = pre
 		}
 	}
 	typeName := map[int64]string{}
@@ -1041,11 +1115,48 @@ func runR13_3(c *Ctx, r *R) {
 			size  cT
 			typ   cT
 		}
-		exitsOf := func(ev *gEnv, info *typeSwitchInfo, sz int) []exit {
+		var exitsOf func(ev *gEnv, info *typeSwitchInfo, sz int) []exit
+		exitsOf = func(ev *gEnv, info *typeSwitchInfo, sz int) []exit {
 			var out []exit
 			for _, ret := range returnsOf(ev.fn) {
 				if !info.applies(ret.Pos(), k) {
 					continue
+				}
+				// `return helper(...)`: the exits are the helper's, under the conditions of reaching the call
+				if call := tailCallOf(ret); call != nil && ev.depth < 3 {
+					if callee := call.Call.StaticCallee(); callee != nil && callee.Pkg != nil && strings.HasPrefix(callee.Pkg.Pkg.Path(), Mod) && callee.Blocks != nil && loopFree(callee) {
+						var argStrs []string
+						sub := &gEnv{an: an, fn: callee, par: map[*ssa.Parameter]cT{}, memo: map[ssa.Value]cT{}, depth: ev.depth + 1}
+						typeBound := true
+						for i, p := range callee.Params {
+							t := ev.term(call.Call.Args[i])
+							sub.par[p] = t
+							argStrs = append(argStrs, an.str(t))
+							if typeIs(p.Type(), pkgPath("internal/format"), "Type") && typSym != nil {
+								// the helper's type switch is pruned by k only if it switches over the decoded type code
+								if !(t.kind == 'i' && t.l.equal(*typSym)) {
+									typeBound = false
+								}
+							}
+						}
+						sub.ctx = strings.Join(argStrs, ", ")
+						subInfo := &typeSwitchInfo{}
+						if typeBound {
+							subInfo = typeSwitches(c, callee)
+						}
+						alts, _ := ev.exitAlts(ret.Block())
+						for _, se := range exitsOf(sub, subInfo, sz) {
+							for _, alt := range alts {
+								ea := se
+								ea.conds = append(append([]gAtom{}, alt.atoms...), se.conds...)
+								if len(ea.final) == 0 {
+									ea.final = alt.final
+								}
+								out = append(out, ea)
+							}
+						}
+						continue
+					}
 				}
 				e := exit{ret: ret}
 				last := ret.Results[len(ret.Results)-1]
@@ -1153,4 +1264,36 @@ func runR13_3(c *Ctx, r *R) {
 			r.Bad(keyS, posS, "parser and probe delimit the value differently: %s", strings.Join(problemsS, " | "))
 		}
 	}
+}
+
+// tailCallOf: the call whose result tuple this return forwards unchanged (`return helper(...)`), or nil.
+func tailCallOf(ret *ssa.Return) *ssa.Call {
+	if len(ret.Results) == 0 {
+		return nil
+	}
+	if len(ret.Results) == 1 {
+		if c, ok := ret.Results[0].(*ssa.Call); ok && ret.Block() == c.Block() {
+			return c
+		}
+		return nil
+	}
+	var call *ssa.Call
+	for i, r := range ret.Results {
+		ex, ok := r.(*ssa.Extract)
+		if !ok || ex.Index != i {
+			return nil
+		}
+		c, ok := ex.Tuple.(*ssa.Call)
+		if !ok || (call != nil && c != call) {
+			return nil
+		}
+		call = c
+	}
+	if call == nil || call.Block() != ret.Block() {
+		return nil
+	}
+	if tup, ok := call.Type().(*types.Tuple); !ok || tup.Len() != len(ret.Results) {
+		return nil
+	}
+	return call
 }
